@@ -11,11 +11,10 @@ Three engines, all static:
            rounding step, %g clauses
 """
 import time
-from c06_common import (unit, SRC, parser_tables, dispatch, vaarg_sites, is_field, where_fn, describe_value,
-                        loopvar_rule, emitter_functions)
+from c06_common import (unit, SRC, parser_tables, dispatch, vaarg_sites, is_field, where_fn, loopvar_rule,
+                        emitter_functions)
 from common import AnalysisBroken
-from irlib import V
-from c13_fv import FV, IV, PV, CV, INF, DBL_MAX, vjoin
+from c13_fv import FV, IV, PV, INF, DBL_MAX, vjoin
 import c13_fi
 import c13_fv
 from c13_fi import FI
@@ -831,12 +830,23 @@ def gshape_rule(rep, mod, T, anchors):
     if len(fills) != 1:
         raise AnalysisBroken('%s: expected one zero-fill emission loop after the buffered text, found %d' % (FN, len(fills)))
     cnt0 = fills[0]
-    sels = [x for x in value_slice(f, cnt0, ops=('select', 'phi', 'trunc', 'sext', 'zext')) if x.op == 'select']
-    dep_short = [x for x in sels if depends_on_arg(f, x.ops[0], ROLE_SHORT)]
+    conds = []
+    for x in value_slice(f, cnt0, ops=('select', 'phi', 'trunc', 'sext', 'zext')):
+        if x.op == 'select':
+            conds.append((x.ops[0], x))
+        elif x.op == 'phi':
+            for (bb, v) in x.incoming:
+                blk = f.bmap[bb]
+                for g in guards_of(f, blk):
+                    conds.append((g, x))
+                t = blk.term
+                if t.op == 'br' and 'f' in t.d:
+                    conds.append((t.ops[0], x))
+    dep_short = [(c, x) for (c, x) in conds if depends_on_arg(f, c, ROLE_SHORT)]
     if not dep_short:
         raise AnalysisBroken('%s: the zero fill does not depend on the shortest-form parameter (anchor changed)' % FN)
-    ok = any(depends_on_flag(f, x.ops[0], H) for x in dep_short)
-    rep.inst('R-GSHAPE', FN, "the zero fill is suppressed only in the shortest form without '#'", ok, dep_short[0].where(),
+    ok = any(depends_on_flag(f, c, H) for (c, x) in conds)
+    rep.inst('R-GSHAPE', FN, "the zero fill is suppressed only in the shortest form without '#'", ok, dep_short[0][1].where(),
              None if ok else 'the zero fill is switched off by the shortest-form parameter alone: "%#g" loses its trailing zeros '
              '(e.g. "%#g" of 1.5 gives "1.5" instead of "1.50000")')
 
